@@ -443,17 +443,15 @@ class Sem:
             sub = env.child()
             sub.lambda_vars = {var: el}
             conds.append((p, self.ev(lam.this, sub)))
-        # list_any / list_all style semantics over present elements, three-valued like ANY/ALL
-        if type(e) is exp.ArrayAny:
-            anyt = A.Or(*[A.And(p, self.is_true(c)) for p, c in conds])
-            anyn = A.Or(*[A.And(p, self.as_bool(c).n) for p, c in conds])
-            res = V("bool", A.And(A.Not(anyt), anyn), anyt)
-        else:
-            anyf = A.Or(*[A.And(p, self.is_false(c)) for p, c in conds])
-            anyn = A.Or(*[A.And(p, self.as_bool(c).n) for p, c in conds])
-            res = V("bool", A.And(A.Not(anyf), anyn), A.Not(anyf))
-        # NULL array (no group) -> NULL
-        return V("bool", A.Or(arr.n, res.n), res.v)
+        if type(e) is exp.ArrayAll:
+            # DuckDB has no rendering for ARRAY_ALL (the generated call is rejected by the engine): nothing to validate against
+            raise Unsupported("ARRAY_ALL")
+        # ARRAY_ANY means what the DuckDB generator renders it to:
+        #   ARRAY_LENGTH(arr) = 0 OR ARRAY_LENGTH(LIST_FILTER(arr, x -> cond)) <> 0
+        # i.e. NULL for a NULL array, TRUE for an empty one, otherwise "some element makes cond TRUE" (two-valued)
+        anyt = A.Or(*[A.And(p, self.is_true(c)) for p, c in conds])
+        empty = A.Not(A.Or(*[p for p, _ in conds]))
+        return V("bool", arr.n, A.Or(empty, anyt))
 
     # ------------------------------------------------------------------ aggregates
     def aggregate(self, e, env: Env) -> V:
@@ -688,7 +686,8 @@ class Sem:
             elif isinstance(node, exp.Column) and isinstance(node.this, exp.Star):
                 star_q = _norm_ident(node.args.get("table"))
             if star_q is not None:
-                if isinstance(node, exp.Star) and (node.args.get("except_") or node.args.get("except") or node.args.get("replace") or node.args.get("rename")):
+                star = node if isinstance(node, exp.Star) else node.this
+                if any(star.args.get(k) for k in ("except_", "except", "replace", "rename")):
                     raise Unsupported("star modifiers")
                 hit = False
                 for i, (q, n) in enumerate(rel.cols):
